@@ -17,7 +17,7 @@ import (
 
 const (
 	property = "C06"
-	rule     = "random DB programs (writes, flushes, automatic/seek/manual compactions on sub-ranges, trivial moves, transaction commits, reopen) x option lattice x 4 comparers; after EVERY installed version (commit hook) every live table is re-read and the C06 conditions are checked: file exists with recorded size, strictly ordered, recorded smallest/largest = first/last, level 0 newest first, deeper levels ordered and disjoint, shallower newer than deeper per user key; for EVERY table compaction the inputs must be closed on the version it was picked on (every next-level table overlapping the user-key hull of the source inputs is an input; at level 0 every level-0 table overlapping it too); non-trivial = a version with >=3 populated levels was installed"
+	rule     = "random DB programs (writes, flushes, automatic/seek/manual compactions on sub-ranges, trivial moves, transaction commits, reopen) x option lattice x 4 comparers; after EVERY installed version (commit hook) every live table is re-read and the C06 conditions are checked: file exists with recorded size, strictly ordered, recorded smallest/largest = first/last, level 0 newest first, deeper levels ordered and disjoint, shallower newer than deeper per user key; for EVERY table compaction the inputs must be closed on the version it was picked on (every next-level table overlapping the user-key hull of the source inputs is an input; at level 0 every level-0 table overlapping it too); non-trivial = a version with >=3 populated levels was installed; plus twin scenarios (writes, reopen, range compactions; run fault-free and with transient table faults armed before each range compaction; table contents per level, cuts and a full scan must agree; the builder of a whole-level compaction driven with and without faults must write the same tables) - a twin is non-trivial when an injected fault fired and the final version has >=2 levels"
 	header   = "From GL Require Import Corr.C06Run."
 	checkWf  = true
 )
@@ -34,6 +34,28 @@ func tweakCfg(r *vlib.RNG, c *dbh.Cfg) {
 // plainHooks: what replays and the shrinker run with (oracles only, no case collection).
 func plainHooks() dbh.Hooks { return dbh.PickHooks(nil, nil, false, 1) }
 
+// runTwinPair runs one scenario fault-free and with faults and compares; it returns a failure text or "".
+func runTwinPair(ts dbh.TwinSpec, col *dbh.PickCol, collect bool, res *vlib.Result) string {
+	clean := dbh.RunTwin(ts, false, col, collect)
+	faulty := dbh.RunTwin(ts, true, col, collect)
+	res.Eval(fmt.Sprintf("twin-%d", ts.TwinSeed), faulty.FaultHits > 0 && len(clean.Levels) >= 2)
+	res.Count("twin_scenarios", 1)
+	res.Count("twin_fault_hits", faulty.FaultHits)
+	if faulty.FaultHits > 0 {
+		res.Count("twin_scenarios_with_fault_hits", 1)
+	}
+	res.Count(fmt.Sprintf("twin_final_levels_%d", len(clean.Levels)), 1)
+	for _, k := range []string{"builder_drives", "builder_drive_failed_attempts", "builder_drive_resumes_from_snapshot", "table_compactions"} {
+		res.Count("twin_"+k, faulty.Stats[k])
+	}
+	if col != nil {
+		for _, c := range faulty.Cases {
+			col.Add(c)
+		}
+	}
+	return dbh.CompareTwins(clean, faulty)
+}
+
 func main() {
 	w := dbh.DefaultWeights()
 	w.Compact, w.Txn, w.Reopen, w.Get, w.Has = 8, 4, 4, 25, 10
@@ -41,6 +63,18 @@ func main() {
 	res := vlib.NewResult(property, a.Out, rule)
 	defer res.Write()
 	if a.Replay != "" {
+		if ts, ok := dbh.LoadTwinSpec(a.Replay); ok {
+			for i := 0; i < 2; i++ {
+				res.Eval(fmt.Sprintf("twin-replay%d", i), true)
+				if d := runTwinPair(*ts, nil, false, res); d != "" {
+					fmt.Println("replay fails:", d)
+					res.Violate(d, ts)
+					return
+				}
+			}
+			fmt.Println("replay passes")
+			return
+		}
 		p, err := dbh.LoadProgram(a.Replay)
 		if err != nil {
 			fmt.Println("cannot load replay:", err)
@@ -59,15 +93,18 @@ func main() {
 		return
 	}
 	nprog, nops := 480, 300
-	caps := dbh.PickCaps{Pick: 600, Finish: 600, Overlaps: 400, MemLevel: 200, Wf: 240}
+	caps := dbh.PickCaps{Pick: 600, Finish: 600, Overlaps: 400, MemLevel: 200, Wf: 240, Build: 160, Retry: 96}
 	shards, kPerRun := 16, 4
+	ntwins := 96
 	if a.Thorough() {
 		nprog, nops = 2000, 1200
-		caps = dbh.PickCaps{Pick: 2400, Finish: 2400, Overlaps: 1600, MemLevel: 800, Wf: 1200}
+		caps = dbh.PickCaps{Pick: 2400, Finish: 2400, Overlaps: 1600, MemLevel: 800, Wf: 1200, Build: 640, Retry: 384}
 		shards = 64
+		ntwins = 600
 	}
 	if strings.Contains(a.Extra, "search") && !a.Thorough() {
 		nprog *= 4
+		ntwins *= 4
 	}
 	col := dbh.NewPickCol(caps)
 	root := vlib.NewRNG(a.Seed)
@@ -137,6 +174,33 @@ func main() {
 	}
 	close(jobs)
 	wg.Wait()
+	// twins: the same scenario with and without transient table faults during its range compactions, and the builder
+	// driven attempt by attempt under faults
+	troot := vlib.NewRNG(a.Seed ^ 0x7717)
+	tjobs := make(chan dbh.TwinSpec)
+	var twg sync.WaitGroup
+	var nTwinFail int32
+	for wk := 0; wk < 8; wk++ {
+		twg.Add(1)
+		go func() {
+			defer twg.Done()
+			for ts := range tjobs {
+				d := runTwinPair(ts, col, true, res)
+				if d != "" {
+					res.Count("twin_scenarios_failed", 1)
+					if atomic.AddInt32(&nTwinFail, 1) <= 4 {
+						res.Violate(d+fmt.Sprintf(" [twin scenario seed %d]", ts.TwinSeed), ts)
+					}
+				}
+			}
+		}()
+	}
+	for i := 0; i < ntwins && atomic.LoadInt32(&nTwinFail) < 4; i++ {
+		// a change that makes compactions retry for ever costs a watchdog period per scenario: four failures are enough
+		tjobs <- dbh.TwinSpec{TwinSeed: troot.Uint64() >> 1}
+	}
+	close(tjobs)
+	twg.Wait()
 	cases, counts := col.Select(shards)
 	for k, v := range counts {
 		res.Count(k, v)
